@@ -19,7 +19,7 @@ PROPS = {
  'C03': dict(scope=set(C03_CMDS), bridge=sigs(C03_CMDS) + ['fixRange_eq', 'floatFormats_eq'], theorems=[]),
  'C04': dict(scope=None, bridge=['sigs_eq', 'sigs_same_names', 'checkArity_eq', 'callArity_ok', 'callArity_table',
                                  'msg_WRONG_ARGS_MSG_eq', 'msg_UNKNOWN_COMMAND_MSG_eq'], theorems=[]),
- 'C05': dict(scope=None, bridge=sigs(F['tx']) + ['notQueued_eq', 'msg_EXECABORT_MSG_eq', 'msg_MULTI_NESTED_MSG_eq',
+ 'C05': dict(scope=None, bridge=sigs(F['tx']) + ['checkArity_eq', 'notQueued_eq', 'msg_EXECABORT_MSG_eq', 'msg_MULTI_NESTED_MSG_eq',
                                                  'msg_WITHOUT_MULTI_MSG_eq', 'msg_WATCH_INSIDE_MULTI_MSG_eq'], theorems=[]),
  'C06': dict(scope=None, bridge=sigs(['watch', 'unwatch', 'exec', 'multi', 'discard', 'move', 'swapdb', 'flushdb', 'flushall']),
              theorems=[]),
